@@ -256,7 +256,8 @@ def continue_with(ctx):
 
   def mr(call, armed):
     if isinstance(call.func, ast.Name) and call.func.id == fnname:
-      return ['Exception']
+      # a user continuation may raise anything, including BaseException kinds such as gevent.Timeout
+      return ['Exception', 'Timeout']
     return []
   n = 0
   for ev, ex in enum_paths(ctx, run, mr):
